@@ -134,6 +134,8 @@ class Ctx:
         """compile generated modules, then the per-run obligation files; returns True iff all ok"""
         ok = True
         gen = [m['coq'] + '.v' for m in (getattr(self.mod, 'TRANSLATE', None) or {}).get('modules', [])]
+        # further modules generated from /repo by the property's own pre_build(ctx) hook
+        gen += [g for g in getattr(self.mod, 'GEN_FILES', []) if g not in gen]
         src_dir = os.path.join(VERIF, 'coq-run', self.id)
         run_files = list(getattr(self.mod, 'RUN_FILES', []))
         for f in run_files:
@@ -442,6 +444,13 @@ def main(argv):
             if static_stale():
                 ctx.ensure_static()
     ok = ctx.translate()
+    if hasattr(mod, 'pre_build'):
+        # property-specific generation from /repo's current files into ctx.build (e.g. data tables)
+        try:
+            mod.pre_build(ctx)
+        except Exception as ex:
+            ctx.obligations.append(('pre_build', 'broken', str(ex)[:500]))
+            ctx.broken.append('pre_build')
     ok = ctx.compile_run_files() and ok
     try:
         mod.correspondence(ctx)
